@@ -204,7 +204,7 @@ func payloadSizeError(err error) error {
 }
 
 // Do sends an coap message and returns an coap response via blockwise transfer.
-func (b *BlockWise[C]) Do(r *pool.Message, maxSzx SZX, maxMessageSize uint32, do func(req *pool.Message) (*pool.Message, error)) (*pool.Message, error) {
+func (b *BlockWise[C]) Do(r *pool.Message, maxSzx SZX, maxMessageSize uint32, do func(req *pool.Message) (*pool.Message, error)) (resp *pool.Message, err error) {
 	if maxSzx > SZXBERT {
 		return nil, errors.New("invalid szx")
 	}
@@ -221,6 +221,14 @@ func (b *BlockWise[C]) Do(r *pool.Message, maxSzx SZX, maxMessageSize uint32, do
 		return nil, errors.New("invalid token")
 	}
 	defer b.sendingMessagesCache.Delete(r.Token().Hash())
+	defer func() {
+		if err != nil {
+			// The exchange is over for the caller. Blocks of its response that were collected so far
+			// (a context without deadline keeps them for the whole transfer timeout) must not be
+			// continued by the next request that happens to use the same token.
+			b.receivingMessagesCache.Delete(r.Token().Hash())
+		}
+	}()
 	if r.Body() == nil {
 		return do(r)
 	}
